@@ -7,6 +7,7 @@ import (
 
 	"verifsim/kit"
 	"verifsim/mgmtsim"
+	"verifsim/objsim"
 	"verifsim/schedsim"
 	"verifsim/enginesim"
 	"verifsim/facesim"
@@ -38,6 +39,8 @@ func TestSim(t *testing.T) {
 		kit.Drive(t, mgmtsim.Engine{}, a)
 	case "schedsim":
 		kit.Drive(t, schedsim.Engine{}, a)
+	case "objsim":
+		kit.Drive(t, objsim.Engine{}, a)
 	case "fwsim":
 		kit.Drive(t, fwsim.Engine{}, a)
 	case "tablesim":
